@@ -297,4 +297,44 @@ Section Cor.
     unfold positive. change g_flag_positive with has. change c_ronly with f_ronly. rewrite Hro. reflexivity.
   Qed.
 
+  (* ---- C08: what an index addresses ---- *)
+  Lemma index_neg c els k :
+    zlen els < Bnd -> has (k_opt c) f_negidx = true -> 1 <= k <= zlen els ->
+    step (mk c els) (OIndex (- k)) =
+      Ok (mk c els, RVal (SVal (nthz V nilv els (zlen els - k))) (negb (isnil (nthz V nilv els (zlen els - k))))).
+  Proof.
+    intros Hb Hn Hk. rewrite step_index by (assumption || (unfold in_i64, two63, Bnd in *; lia)).
+    unfold sindex. cbn [StackRefine.abs s_cfg s_elems]. change (a_opts (abs_cfg c)) with (k_opt c).
+    rewrite Hn. rewrite resolve_neg by assumption. reflexivity.
+  Qed.
+
+  Lemma index_fwd c els i :
+    zlen els < Bnd -> in_i64 i -> has (k_opt c) f_fwdidx = true -> 0 < zlen els <= i ->
+    step (mk c els) (OIndex i) =
+      Ok (mk c els, RVal (SVal (nthz V nilv els (zlen els - 1))) (negb (isnil (nthz V nilv els (zlen els - 1))))).
+  Proof.
+    intros Hb Hi Hf Hk. rewrite step_index by assumption.
+    unfold sindex. cbn [StackRefine.abs s_cfg s_elems]. change (a_opts (abs_cfg c)) with (k_opt c).
+    rewrite Hf. rewrite resolve_fwd by assumption. reflexivity.
+  Qed.
+
+  Lemma index_plain c els i :
+    zlen els < Bnd -> 0 <= i < zlen els ->
+    step (mk c els) (OIndex i) =
+      Ok (mk c els, RVal (SVal (nthz V nilv els i)) (negb (isnil (nthz V nilv els i)))).
+  Proof.
+    intros Hb Hk. rewrite step_index by (assumption || (unfold in_i64, two63, Bnd in *; lia)).
+    unfold sindex. cbn [StackRefine.abs s_cfg s_elems].
+    rewrite resolve_plain by assumption. reflexivity.
+  Qed.
+
+  Lemma index_without_options c els i :
+    zlen els < Bnd -> in_i64 i ->
+    (i < 0 /\ has (k_opt c) f_negidx = false) \/ (zlen els <= i /\ has (k_opt c) f_fwdidx = false) ->
+    step (mk c els) (OIndex i) = Ok (mk c els, RVal (SVal nilv) false).
+  Proof.
+    intros Hb Hi H. apply bad_index_noop; try assumption.
+    apply resolve_none. destruct H as [[H1 H2]|[H1 H2]]; [left|right; left]; auto.
+  Qed.
+
 End Cor.
